@@ -418,6 +418,31 @@ func (c *core) fastForward(block *hg.Block, frame *hg.Frame) error {
 	return nil
 }
 
+// checkFastForward runs the verifications of fastForward (well-formed Frame,
+// Block signatures against the Frame's peer-set, Frame hash) without changing
+// anything. Node.fastForward uses it to verify a FastForwardResponse before
+// restoring the application from the snapshot.
+func (c *core) checkFastForward(block *hg.Block, frame *hg.Frame) error {
+	if err := checkFrameWellFormed(frame); err != nil {
+		return err
+	}
+
+	if err := c.hg.CheckBlock(block, peers.NewPeerSet(frame.Peers)); err != nil {
+		return err
+	}
+
+	frameHash, err := frame.Hash()
+	if err != nil {
+		return err
+	}
+
+	if !reflect.DeepEqual(block.FrameHash(), frameHash) {
+		return fmt.Errorf("Invalid Frame Hash")
+	}
+
+	return nil
+}
+
 // checkFrameWellFormed verifies that a Frame received from a remote peer does
 // not contain nil elements that the hashgraph would dereference.
 func checkFrameWellFormed(frame *hg.Frame) error {
